@@ -88,7 +88,7 @@ class Workload:
         kind = op[0]
         if kind in ("listen", "open"):
             return True
-        if kind in ("write", "close"):
+        if kind in ("write", "close", "pause", "resume"):
             h = self.handles[side.name]
             if not h:
                 return True      # nothing was opened: the op is a no-op
@@ -102,7 +102,7 @@ class Workload:
             side.listen(op[1])
         elif kind == "open":
             self.handles[side.name].append(side.connect(op[1]))
-        elif kind in ("write", "close"):
+        elif kind in ("write", "close", "pause", "resume"):
             h = self.handles[side.name]
             if not h:
                 return
@@ -110,14 +110,32 @@ class Workload:
             if rec[1] != "ok":
                 return
             self._on_proto(side, rec[2], kind, op)
-        elif kind in ("awrite", "aclose"):
+        elif kind in ("awrite", "aclose", "apause", "aresume"):
             acc = self._accepted(side)
             if not acc:
                 return
             p = acc[op[1] % len(acc)]
             self._on_proto(side, p, kind[1:], op)
+        elif kind == "resume_all":
+            for p in side.protocols:
+                if getattr(p, "app_paused", False):
+                    self._on_proto(side, p, "resume", op)
 
     def _on_proto(self, side, p, kind, op):
+        if kind == "pause":
+            # a slow application: stop the flow on this subchannel for a while
+            if not p.lost and not p.closed_local and p.made and \
+                    not getattr(p, "app_paused", False):
+                p.transport.pauseProducing()
+                p.app_paused = True
+                self.w.sim.note("probe.app_paused_subchannel")
+            return
+        if kind == "resume":
+            if getattr(p, "app_paused", False):
+                p.app_paused = False
+                if not p.lost:
+                    p.transport.resumeProducing()
+            return
         if kind == "write":
             try:
                 p.transport.write(op[2])
